@@ -499,8 +499,8 @@ def rule_r4(prog, res) -> None:
             res.violation("C01.R4", worker, ev.node, "scales are converted without the configuration's cosmology", key_extra="worker-cosmology")
     gar = prog.func("Scales.get_angle_radian")
     res.touch(gar)
-    ret = [r.value for r in walk_no_nested(gar.node) if isinstance(r, ast.Return)]
-    if ret and isinstance(ret[0], ast.Tuple) and ["scale_min" in unparse(ret[0].elts[0]), "scale_max" in unparse(ret[0].elts[1])] == [True, True]:
+    ret = [p.value for p in symx.explore(prog, gar, inline=symx.inline_private_helpers(prog, public={"_compute_angle"})) if p.outcome == "return" and p.value is not None]
+    if ret and all(isinstance(r, ast.Tuple) and len(r.elts) == 2 and ["scale_min" in unparse(r.elts[0]), "scale_max" in unparse(r.elts[1])] == [True, True] for r in ret):
         res.ok("C01.R4", res.site(gar), "returns (angle of scale_min, angle of scale_max)")
     else:
         res.violation("C01.R4", gar, gar.node, "get_angle_radian does not return (min, max) in this order", key_extra="angle-radian-order")
